@@ -24,6 +24,7 @@ type Bar struct {
 	bsOk         chan struct{}
 	ctx          context.Context
 	cancel       func()
+	retired      bool // container goroutine only: last frame flushed, queued bar (if any) took its place
 }
 
 type syncTable [2][]chan int
